@@ -319,6 +319,36 @@ def run_base(bi):
         shutil.rmtree(wd + "-sort", ignore_errors=True)
 
 
+def run_sortring(i):
+    """ovnisort's own buffers: valid streams with unsorted regions sorted
+    with small look-back rings (the ring wraps many times), ASan + H1."""
+    import c16
+    chk, build = _CTX["chk"], _CTX["asan"]
+    rng = chk.rng(i, "sortring")
+    wd = os.path.join(chk.scratch, "sr%d" % i)
+    out = {"viol": [], "n": 0}
+    try:
+        need = 0
+        for s_ in range(rng.randint(1, 2)):
+            evs, info = c16.gen_stream(rng, 300 + s_, "ok")
+            need = max(need, info["need"])
+            obs.write_stream(wd, "L", 1, 300 + s_, obs.thread_meta(300 + s_, 1, "L", cpus=[(0, 0)], extra=c16.MARK),
+                             [c16.to_tuple(e) for e in evs])
+        for n in sorted(set([2 * need + 4, need + 2, max(2, need), rng.choice([2, 3, 4, 8, 16, 64])])):
+            d = wd + "-n%d" % n
+            shutil.copytree(wd, d)
+            r = emu.run_tool(build, "ovnisort", ["-n", str(n), d], timeout=30, env=ENV)
+            shutil.rmtree(d, ignore_errors=True)
+            out["n"] += 1
+            v = classify("ovnisort", r)
+            if v:
+                out["viol"].append((v[0], "%s with -n %d on a valid stream with unsorted regions" % (v[1], n),
+                                    {"case": i, "n": n, "obs": r.brief()}))
+        return out
+    finally:
+        shutil.rmtree(wd, ignore_errors=True)
+
+
 def main(argv):
     chk = core.Check("C19", "exploration", argv)
     asan = chk.build("asan", TOOLS)
@@ -335,7 +365,14 @@ def main(argv):
             kinds[k] = kinds.get(k, 0) + c
         for key, what, o in r["viol"]:
             chk.report(key, what, o)
-    cov = {"evaluations": n * len(TOOLS), "distinct_nontrivial": len(kinds),
+    nsort = 0
+    if not chk.replay:
+        for r in core.pmap(run_sortring, range(150 if quick else 3000)):
+            nsort += r["n"]
+            for key, what, o in r["viol"]:
+                chk.report(key, what, o)
+        kinds["sort:small-ring"] = nsort
+    cov = {"evaluations": n * len(TOOLS) + nsort, "distinct_nontrivial": len(kinds),
            "rule": "structure-aware mutants of valid multi-model traces (flags nibbles, jumbo size fields incl. values "
                    ">= 2^31, truncation at every offset of the last two events, payload shapes, jumbo data without NUL, "
                    "MCV bytes, extreme clocks, page-multiple file sizes, byte noise; every JSON type at every metadata "
@@ -343,7 +380,7 @@ def main(argv):
                    "clock-offset tables), each run through ovniemu/ovnidump/ovnitop/ovnisort built with ASan+UBSan and "
                    "the exact-size heap stream buffer. evaluations = tool runs; distinct_nontrivial = mutation kinds",
            "samples": [{"kind": k, "mutants": c} for k, c in sorted(kinds.items())[:40]],
-           "mutants": n, "tools": TOOLS, "bases": len(bases),
+           "mutants": n, "tools": TOOLS, "bases": len(bases), "ovnisort_small_ring_runs": nsort,
            "timeout_rule": "20 s, re-run once with 60 s; only a repeated hit is a hang"}
     return chk.finish(cov, assumptions=[
         "ASan/UBSan see accesses outside the heap copy of the stream (hook H1) and the tools' own heap/stack objects; "
